@@ -308,6 +308,10 @@ func vRunTLS(c vCase) string {
 }
 
 func TestVerifC17(t *testing.T) {
+	// loading the system root pool is done once per process and can take a few hundred ms on a loaded machine: do it before
+	// any handshake is timed
+	_, _ = x509.SystemCertPool()
+	vMakePKI()
 	cases := vReadCases(t)
 	out := vOpenOut(t)
 	defer out.close()
